@@ -99,6 +99,12 @@ add('C18', 'model_checking',
     "symbolic execution of the real validator over symbolic tensor contents (UF terms, z3) + bit-precise (QF_FP) lemma chains for the metric laws; replay on the real interpreters via compare_model",
     'DESIGN.md 3/C18')
 
+add('C12', 'model_checking',
+    "Recipes reachable by update calls from an empty manager run through the real add_quantization_config (REAL support check and policy) -> get_quantization_recipe -> JSON round trip -> load into a fresh manager -> get_quantization_recipe / get_quantization_configs / need_calibration: single updates with fully SYMBOLIC config fields (num_bits, block_size unbounded integers; symmetric, explicit_dequantize, skip_checks booleans; enums, presence of activation/weight config forked), pairs of updates (rule interactions) with configs from a concrete set. On every path z3 decides that the reloaded recipe equals the saved one, resolves 3 operator types x 2 scopes identically and keeps need_calibration. Concretely: every file under recipes/ loads, the defaults re-export to themselves, and the JSON model J agrees with the json module.",
+    "Assumes: JSON round trip modelled by J (validated against json); histories <= 2 updates (3 thorough); regex/op alphabets of 2/4; byte-identical quantize() output from equal recipes is C14; serializer not encoded.",
+    "path-exhaustive symbolic execution of the real recipe export/import code on symbolic config fields (z3 LIA/Bool), concrete replay with the json module",
+    'DESIGN.md 3/C12')
+
 def write():
   m = {
    'version': 1,
